@@ -25,6 +25,7 @@ func init() {
 			{"C12.R4", "q", "FlushData pairing", c12r4},
 			{"C12.R5", "q", "decrement paired with free of the same buffer", c12r5},
 			{"C12.R7", "q", "owned units in request-keyed maps", c12r7},
+			{"C12.R8", "q", "release keyed on the version sign: rejected revisions stay non-negative", c12r8},
 			{"C12.R6", "q", "event discovery: every event inside a contracted function", c12r6},
 		},
 	})
@@ -1099,4 +1100,24 @@ func distinguish(failing, passing []bpath) string {
 		return sb.String()
 	}
 	return ""
+}
+
+func c12r8(c *Ctx) {
+	// evaluated together with C01.R9 (same construct); only the C12.R8 obligations are kept here
+	sub := NewCtx(c.P, c.Prop, c.Tier)
+	c01r9(sub)
+	n := 0
+	for _, o := range sub.Obs {
+		if o.Rule == "C12.R8" {
+			c.Obs = append(c.Obs, o)
+			c.count["C12.R8"]++
+			n++
+		}
+	}
+	for k := range sub.Funcs {
+		c.Funcs[k] = true
+	}
+	if n == 0 {
+		c.undec("C12.R8", "store.Bucket.checkAndUpdateVerison", "no rejecting return found")
+	}
 }
